@@ -8,7 +8,7 @@
 From Coq Require Import List NArith ZArith Bool String.
 From GoGit Require Import Base.Out Base.GoInt Model.PackBytes Model.Idx Spec.IdxFormat
   Proofs.C10Basic Proofs.C10Order Proofs.C10Table Proofs.C10Layout Proofs.C10Lazy Proofs.C10Main
-  Proofs.C10Decode Proofs.C10Memory Proofs.C10Mmap.
+  Proofs.C10Decode Proofs.C10Memory Proofs.C10Mmap Proofs.C10Rev Proofs.C10MemHash.
 Import ListNotations.
 Local Open Scope N_scope.
 
@@ -137,6 +137,58 @@ Proof.
   split; [reflexivity|]. destruct (lookup tbl h); reflexivity.
 Qed.
 Print Assumptions C10_impls_equal.
+
+(* ---- offset-to-id.  Domain: distinct offsets below 2^63 ([offsets_okb], decidable).
+   S: git's rev v1 layout [rev_file] of the table (positions in offset order). ---- *)
+
+(* revfile.Encode of the decoded index writes git's rev layout *)
+Theorem C10_rev_is_git_layout : forall hs Hsz es pack sum,
+  wf_entries hs es = true -> List.length pack = hs ->
+  rev_encode hs Hsz (spec_index (table es) pack sum)
+  = Ok (rev_file (Hsz hs) (rev_hf hs) (table es) pack).
+Proof.
+  intros hs Hsz es pack sum W Hp.
+  exact (rev_encode_layout hs Hsz (spec_index (table es) pack sum) (table es)
+           (mem_entries_map hs Hsz (table es) pack sum (wf_entries_tbl hs es W) Hp)).
+Qed.
+Print Assumptions C10_rev_is_git_layout.
+
+(* LazyIndex.FindHash (binary search through the .rev) and EntriesByOffset *)
+Theorem C10_lazy_findhash_is_map : forall hs H es pack hf,
+  wf_entries hs es = true -> List.length pack = hs -> offsets_okb (table es) = true ->
+  let tbl := table es in
+  let L := the_lazy hs H tbl pack (rev_file H hf tbl pack) in
+  (forall o, o < 9223372036854775808 ->
+     lazy_find_hash hs L (Z.of_N o) = match lookup_off tbl o with Some e => Ok (e_hash e) | None => Err ENotFound end) /\
+  lazy_by_offset hs L = (sort_by_off tbl, None).
+Proof.
+  intros hs H es pack hf W Hp Ho tbl L.
+  pose proof (wf_entries_tbl hs es W) as WF. destruct (offsets_okb_spec _ Ho) as [Hd Hs].
+  split; [intros o Hlt; exact (lazy_find_hash_map hs H tbl pack hf WF Hp Hd Hs o Hlt)|
+          exact (lazy_by_offset_map hs H tbl pack hf WF Hp Hd Hs)].
+Qed.
+Print Assumptions C10_lazy_findhash_is_map.
+
+(* MemoryIndex.FindHash, for every history: the cache invariant [st_ok] holds initially, is kept by
+   FindOffset and FindHash, and under it FindHash answers like the map by offset *)
+Theorem C10_memory_findhash_history : forall hs (Hsz : nat -> bytes -> bytes) es pack sum,
+  wf_entries hs es = true -> List.length pack = hs -> offsets_okb (table es) = true ->
+  let tbl := table es in
+  let m := spec_index tbl pack sum in
+  st_ok tbl ms_init /\
+  (forall st h, st_ok tbl st -> wf_hash hs h -> st_ok tbl (snd (mem_find_offset hs m st h))) /\
+  (forall st o, st_ok tbl st -> o < 9223372036854775808 ->
+     fst (mem_find_hash hs m st (Z.of_N o))
+     = match lookup_off tbl o with Some e => Ok (e_hash e) | None => Err ENotFound end /\
+     st_ok tbl (snd (mem_find_hash hs m st (Z.of_N o)))).
+Proof.
+  intros hs Hsz es pack sum W Hp Ho tbl m.
+  pose proof (wf_entries_tbl hs es W) as WF. destruct (offsets_okb_spec _ Ho) as [Hd Hs].
+  split; [exact (st_ok_init hs Hsz tbl pack sum WF Hp Hd Hs)|]. split.
+  - intros st h Hst Hh. exact (mem_find_offset_keeps hs Hsz tbl pack sum WF Hp Hd Hs st h Hst Hh).
+  - intros st o Hst Hlt. exact (mem_find_hash_map hs Hsz tbl pack sum WF Hp Hd Hs st o Hst Hlt).
+Qed.
+Print Assumptions C10_memory_findhash_history.
 
 (* ---- C10_reject: malformed files are rejected by Decoder.Decode ---- *)
 Theorem C10_reject_magic : forall hs Hsz file,
